@@ -8,6 +8,10 @@ CONSTANTS
   MaxReq = 1000000
   MaxBatch = 2
   Hist = FALSE
+  Reps = {1, 255, 256}
+  CountHist = TRUE
+  GenBug = FALSE
+  GenMod = 256
   Deliveries = {"single", "pipelined", "fragmented"}
   SplitReg = FALSE
 VIEW ViewLts
